@@ -212,7 +212,9 @@ func (j *c16Job) run(yields int) string {
 		runtime.Gosched()
 	}
 	if j.demux {
-		res := demuxAll(j.stream)
+		// a reader that yields the processor every few reads multiplies the interleavings of concurrent instances
+		yr := &yieldingReader{r: bytes.NewReader(j.stream), every: 1 + yields%3}
+		res := demuxAllR(yr, len(j.stream)/188+64, astits.DemuxerOptPacketSize(188))
 		s := fmt.Sprintf("errs=%d ended=%v;", len(res.errs), res.ended)
 		for _, it := range res.items {
 			s += obs.Canon(it) + ";"
@@ -324,4 +326,18 @@ func TestC16Concurrent(t *testing.T) {
 			return map[string]interface{}{"goroutines": n, "demuxers": nd, "muxers": nm, "start_offsets_gosched": yields}
 		})
 	})
+}
+
+type yieldingReader struct {
+	r     *bytes.Reader
+	every int
+	n     int
+}
+
+func (y *yieldingReader) Read(p []byte) (int, error) {
+	y.n++
+	if y.n%y.every == 0 {
+		runtime.Gosched()
+	}
+	return y.r.Read(p)
 }
